@@ -123,7 +123,32 @@ func (g *Gen) call(in ssa.Instruction, c *ssa.CallCommon, rt types.Type) Val {
 		if fc.Opts["inline"] == "true" && callee != nil && len(callee.Blocks) > 0 {
 			return g.inlineCall(callee, nil, args, rt, pos)
 		}
-		return g.applyContract(fc, key, sig, names, args, rt, pos, text)
+		// &local struct (held as a value) passed by reference: give the callee a temporary heap object
+		// holding a copy and copy it back afterwards (copy-in / copy-out)
+		type tmpObj struct {
+			addr *Addr
+			ref  string
+			t    types.Type
+		}
+		var tmps []tmpObj
+		for i, a := range args {
+			if a.Addr != nil && a.Addr.Kind == "cell" && len(a.Addr.Path) == 0 {
+				if _, isStruct := a.Addr.ElemT.Underlying().(*types.Struct); isStruct {
+					r := g.allocRef(g.cur)
+					g.storeStruct(g.cur, a.Addr.ElemT, r, g.heapGet(g.cur, a.Addr.Heap))
+					tmps = append(tmps, tmpObj{a.Addr, r, a.Addr.ElemT})
+					args[i] = Val{T: a.T, S: r}
+				}
+			}
+		}
+		res := g.applyContract(fc, key, sig, names, args, rt, pos, text)
+		if fc.Opts["pure"] == "true" || (len(fc.Modifies) == 0 && fc.Opts["modifies"] != "all") {
+			tmps = nil // the callee's contract says it changes nothing
+		}
+		for _, tm := range tmps {
+			g.cur.store[tm.addr.Heap] = g.define(tm.addr.Heap, g.heapSort[tm.addr.Heap], g.loadStruct(g.cur, tm.t, tm.ref))
+		}
+		return res
 	}
 	// no contract
 	if key != "" && g.E.effectFree(key) {
